@@ -31,6 +31,7 @@ fn main() {
     }
     return;
   }
+  if id == "c09-deep" { std::process::exit(c09::deep_child_main(&args[2..])); }
   if id == "c10-rngfail" { std::process::exit(c10::rngfail_child_main(&args[2..])); }
   if id == "c10-fork" { std::process::exit(c10::fork_child_main(&args[2..])); }
   if id == "fuzz-seeds" {
